@@ -43,7 +43,7 @@ def pathfinder(roots, name):
     origin = spec.origin
     kind = 'pkg' if spec.submodule_search_locations is not None else 'mod'
     for k, r in enumerate(roots):
-        if os.path.commonpath([os.path.realpath(origin), os.path.realpath(r)]) == os.path.realpath(r):
+        if os.path.commonpath([os.path.abspath(origin), os.path.abspath(r)]) == os.path.abspath(r):      # (links inside the trees are not resolved)
             return [k, kind, os.path.relpath(origin, r)]
     return ['?', kind, origin]
 
@@ -55,6 +55,17 @@ def run_case(c, d):
         os.makedirs(r)
         materialise(tree, r)
         roots.append(r)
+    # some module files / sub-package directories inside packages are symbolic links to things stored elsewhere under another name (shared or
+    # vendored code linked into a package): the import system, and the names, go by the path inside the package
+    import shutil
+    for n, (ri, rel) in enumerate(c.get('links', [])):
+        src = os.path.join(roots[ri], rel)
+        if os.path.lexists(src) and not os.path.islink(src):
+            store = os.path.join(d, 'store')
+            os.makedirs(store, exist_ok=True)
+            target = os.path.join(store, 'impl_%d_v2%s' % (n, '.py' if src.endswith('.py') else ''))
+            shutil.move(src, target)
+            os.symlink(target, src)
     importlib.invalidate_caches()
     out = {'lookup': {}, 'pathfinder': {}, 'roundtrip': {}, 'walk': {}}
     out['spelling'] = {}
